@@ -18,7 +18,12 @@ in several batch shapes (stacked (B,..), grid (a,b,..), one unit, a bare vector)
 with the exact values (rows, signs, dimensions, centres, radii, ordered angle pairs); outputs
 that depend on the SVD / eigen-solver are bound by the laws the specification names (Gram
 matrix = diag of the exact sign sequence, annihilation, orthonormality, span of the exact
-kernel basis).
+kernel basis).  Scale covariance: every record also names exact rational factors (powers of
+ten); point sets are replayed as c (P + shift) for c = 1e-6, 1e-3, 1e3, -1e-3 (whole batch and
+mixed within one batch), rows / forms multiplied by positive factors 1e-3, 1e3 (same
+normalised rows, same kernel, same signs) -- all comparisons are relative to the scale, and
+the covariance laws themselves are TLC theorems (Similar, RowScaleInvariant,
+FormScaleInvariant) for small integer factors.
 """
 import concurrent.futures
 import json
@@ -40,17 +45,18 @@ MAXV = 12          # violations reported per clause family
 # TLC jobs (run concurrently; bookkeeping in the main thread)
 # ----------------------------------------------------------------------------------------
 FORMS_INV = ["TypeOK", "Orth", "NormRatio", "GramMinor", "FlagSpan", "Inertia", "SigInvariant",
-             "StdBasisIsJacobi", "EmitObs"]
+             "StdBasisIsJacobi", "RowScaleInvariant", "FormScaleInvariant", "EmitObs"]
 KERNEL_INV = ["ElimExact", "RankNullity", "Annihilated", "Independent", "RankSteps", "GramRank",
-              "TransposeRank", "EmitObs"]
-SPHERE_INV = ["GeneralPosition", "SystemRegular", "Equidistant", "ShellCentre", "SolveAgrees", "OrderFree", "EmitObs"]
+              "TransposeRank", "RowScaleInvariant", "EmitObs"]
+SPHERE_INV = ["GeneralPosition", "SystemRegular", "Equidistant", "ShellCentre", "SolveAgrees", "OrderFree", "Similar",
+              "EmitObs"]
 ARCS_INV = ["CosOrderTable", "ShortIsLib", "IncludeIsLib", "ArePermutations", "SwapFree", "ShortIsShort",
             "R2LDescends", "IncludeContains", "IncludeVsShort", "Equivariant", "R2LReflect", "EmitObs"]
 
 
 def forms_job(name, n, rng, rows, supp=None, mincong=0, maxcong=0, formrng=1, condk=50, rat=False,
-              workers=4, simulate=None, depth=None, init="Init"):
-    inv = list(FORMS_INV)
+              workers=4, simulate=None, depth=None, init="Init", scale_thm=True):
+    inv = [i for i in FORMS_INV if scale_thm or i != "RowScaleInvariant"]
     if rat:
         inv.insert(-1, "RatAgrees")
     return dict(name=name, module="num/Forms.tla", workers=workers, simulate=simulate, depth=depth,
@@ -343,12 +349,15 @@ def replay_gs(run, V, recs, single_every):
         n_cases += B
         for c in cases:
             run.case(key=("gs", fj, jkey(c["rows"])), action="gram_schmidt_state")
-        for tag, grid in shapes_of(B):
+        # rows multiplied by the exact positive factors the specification names: same normalised rows
+        Xsc = X * np.array([[rat(x) for x in c["rowscale"]] for c in cases])[:, :, None]
+        plans = [(tag, grid, X) for tag, grid in shapes_of(B)] + [("stack/rows scaled", None, Xsc)]
+        for tag, grid, Xsrc in plans:
             if grid is None:
-                Xs, Rs, cs = X, R, cases
+                Xs, Rs, cs = Xsrc, R, cases
             else:
                 m = int(np.prod(grid))
-                Xs, Rs, cs = X[:m], R[:m], cases[:m]
+                Xs, Rs, cs = Xsrc[:m], R[:m], cases[:m]
             shp = (len(cs),) if grid is None else grid
             # indefinite_orthogonalize
             out, err = call(U.indefinite_orthogonalize, F.copy(), Xs.reshape(shp + (k, n)).copy())
@@ -448,6 +457,8 @@ def replay_forms(run, V, recs):
         # interleave signatures so that neighbouring batch entries differ
         cases = sorted(cases, key=lambda c: (hash_int(jkey(c["F"])), c["neg"]))
         Bm = np.array([c["F"] for c in cases], dtype=float)
+        # each form multiplied by the exact positive factor the specification names: same signs, same orders
+        Bsc = Bm * np.array([rat(c["fscale"]) for c in cases])[:, None, None]
         total += len(cases)
         for c in cases:
             run.case(key=("form", jkey(c["F"])), action="form_state")
@@ -458,7 +469,8 @@ def replay_forms(run, V, recs):
                     w = [c["signed"]] if mode == "signed" else c["minkowski"]
                     w = [list(reversed(s)) for s in w] if rev else [list(s) for s in w]
                     want_sets.append(w)
-                for tag, grid in shapes_of(len(cases)) + [("unit", None)]:
+                for tag, grid in shapes_of(len(cases)) + [("unit", None), ("stack/forms scaled", None)]:
+                    src = Bsc if tag.endswith("scaled") else Bm
                     if tag == "unit":
                         idxs = [[i] for i in range(0, len(cases), max(1, len(cases) // 40))]
                     elif grid is None:
@@ -466,7 +478,7 @@ def replay_forms(run, V, recs):
                     else:
                         idxs = [list(range(int(np.prod(grid))))]
                     for idx in idxs:
-                        A = Bm[idx]
+                        A = src[idx]
                         if tag == "unit":
                             arg = A[0]
                         elif grid is not None:
@@ -491,9 +503,11 @@ def replay_forms(run, V, recs):
                         W1, err = call(U.diagonalize_form, arg.copy(), order_eigenvalues=mode, reverse=rev, with_inverse=False)
                         with np.errstate(all="ignore"):
                             G = W.swapaxes(-1, -2) @ A @ W
-                            scale = np.maximum(1.0, np.abs(W).max(axis=(-1, -2))) ** 2 * np.maximum(1.0, np.abs(A).max(axis=(-1, -2)))
+                            wmax = np.abs(W).max(axis=(-1, -2))
+                            scale = np.maximum(1.0, wmax ** 2 * np.abs(A).max(axis=(-1, -2)))
                             ok, sg = signs_of_gram(G, TOL * scale)
-                            inv_ok = np.abs(W @ Wi - np.eye(n)).max(axis=(-1, -2)) <= TOL * scale
+                            inv_ok = np.abs(W @ Wi - np.eye(n)).max(axis=(-1, -2)) <= TOL * np.maximum(1.0, wmax * np.abs(Wi).max(axis=(-1, -2)))
+                            scale = np.maximum(1.0, wmax)
                             same_ok = np.ones(len(idx), dtype=bool)
                             if err is None:
                                 try:
@@ -537,6 +551,8 @@ def replay_kernels(run, V, recs, single_every):
     total = 0
     for (m, n, dim), cases in sorted(groups.items()):
         M = np.array([c["M"] for c in cases], dtype=float)
+        # rows multiplied by the exact positive factors the specification names: same rank, same kernel
+        Msc = M * np.array([[rat(x) for x in c["rowscale"]] for c in cases])[:, :, None]
         total += len(cases)
         for c in cases:
             run.case(key=("ker", jkey(c["M"])), action="kernel_state")
@@ -544,16 +560,18 @@ def replay_kernels(run, V, recs, single_every):
         for tag, grid in shapes_of(len(cases)):
             if grid is None:
                 variants.append((tag, M, cases, (len(cases),)))
+                variants.append((tag + "/rows scaled", Msc, cases, (len(cases),)))
             else:
                 q = int(np.prod(grid))
                 variants.append((tag, M[:q].reshape(grid + (m, n)), cases[:q], grid))
         for i in range(0, len(cases), single_every):
             variants.append(("unit", M[i], cases[i:i + 1], ()))
+            variants.append(("unit/rows scaled", Msc[i], cases[i:i + 1], ()))
         for tag, arg, cs, shp in variants:
             out, err = call(U.kernel, arg.copy())
             run.evaluations += 1
             run.actions["kernel"] = run.actions.get("kernel", 0) + len(cs)
-            key0 = "ker:%s:%s" % (jkey(cs[0]["M"]), "batch" if tag != "unit" else "unit")
+            key0 = "ker:%s:%s" % (jkey(cs[0]["M"]), "batch" if not tag.startswith("unit") else "unit")
             if err:
                 V.add(key0, "kernel.raised", dict(matrix=cs[0]["M"], shape=tag, batch=len(cs), error=err))
                 continue
@@ -567,7 +585,8 @@ def replay_kernels(run, V, recs, single_every):
             K = out.reshape((-1, n, dim))
             A = np.asarray(arg).reshape((-1, m, n))
             with np.errstate(all="ignore"):
-                ann = np.abs(A @ K).max(axis=(-1, -2)) <= 1e-8 * np.maximum(1.0, np.abs(A).max(axis=(-1, -2)))
+                # row by row, relative to the size of the row (a zero row gives exactly 0)
+                ann = (np.abs(A @ K).max(axis=-1) <= 1e-8 * np.abs(A).max(axis=-1)).all(axis=-1)
                 on = np.abs(K.swapaxes(-1, -2) @ K - np.eye(dim)).max(axis=(-1, -2)) <= TOL
                 # every vector of the exact integer basis lies in the span of the returned basis
                 S = np.array([c["ker"] for c in cs], dtype=float)          # (B, dim, n)
@@ -575,8 +594,8 @@ def replay_kernels(run, V, recs, single_every):
                 span = np.abs(proj - S).max(axis=(-1, -2)) <= 1e-8 * np.maximum(1.0, np.abs(S).max(axis=(-1, -2)))
             for mask, clause in ((ann, "kernel.annihilated"), (on, "kernel.orthonormal"), (span, "kernel.spans_exact_kernel")):
                 for j in np.nonzero(~mask)[0][:2]:
-                    V.add("ker:%s:%s" % (jkey(cs[j]["M"]), "batch" if tag != "unit" else "unit"), clause,
-                          dict(matrix=cs[j]["M"], shape=tag, exact_kernel=cs[j]["ker"], got=np.round(K[j], 6).tolist()))
+                    V.add("ker:%s:%s" % (jkey(cs[j]["M"]), "batch" if not tag.startswith("unit") else "unit"), clause,
+                          dict(matrix=cs[j]["M"], shape=tag, row_factors=cs[j]["rowscale"], exact_kernel=cs[j]["ker"], got=np.round(K[j], 6).tolist()))
                 if (~mask).any():
                     break
         c = cases[len(cases) // 2]
@@ -588,67 +607,93 @@ def replay_kernels(run, V, recs, single_every):
 # ----------------------------------------------------------------------------------------
 # spheres
 # ----------------------------------------------------------------------------------------
+def rat(x):
+    return x[0] / x[1]
+
+
 def replay_spheres(run, V, recs, single_every):
+    """every point set is replayed as it is and as the similar copies c (P + shift) the specification names:
+    for each factor c of its table (whole batch at that scale) and with the per-record factor (mixed batch:
+    tiny, large and reflected spheres side by side).  Expected: centre c (centre + shift), radius |c| r,
+    compared relative to |c| times the size of the unscaled configuration."""
     U = utils_mod()
     by_n = {}
     for c in recs:
         by_n.setdefault(c["n"], []).append(c)
     total = 0
     for n, cases in sorted(by_n.items()):
-        P = np.array([c["P"] for c in cases], dtype=float)                        # (B, n+1, n)
-        C = np.array([[x[0] / x[1] for x in c["centre"]] for c in cases])        # exact rationals -> float
-        Rr = np.array([math.sqrt(c["r2"][0] / c["r2"][1]) for c in cases])
-        total += len(cases)
+        B = len(cases)
+        P0 = np.array([c["P"] for c in cases], dtype=float)                        # (B, n+1, n)
+        C0 = np.array([[rat(x) for x in c["centre"]] for c in cases])            # exact rationals -> float
+        R0 = np.array([math.sqrt(rat(c["r2"])) for c in cases])
+        T = np.array([c["shift"] for c in cases], dtype=float)                    # exact integer shifts
+        table = [rat(x) for x in cases[0]["scales"]]
+        mixed = np.array([rat(c["scales"][c["si"] - 1]) for c in cases])
+        total += B
         for c in cases:
             run.case(key=("sph", jkey(c["P"])), action="sphere_state")
-        variants = []
-        for tag, grid in shapes_of(len(cases)):
-            if grid is None:
-                variants.append((tag, slice(None), (len(cases),)))
-            else:
-                variants.append((tag, slice(0, int(np.prod(grid))), grid))
-        for i in range(0, len(cases), single_every):
-            variants.append(("unit", slice(i, i + 1), ()))
-        for tag, sl, shp in variants:
-            cs = cases[sl]
-            arg = P[sl].reshape(shp + (n + 1, n))
-            fns = [("sphere_through", lambda a: U.sphere_through(a))]
-            if n == 2:
-                fns.append(("circle_through", lambda a: U.circle_through(a[..., 0, :], a[..., 1, :], a[..., 2, :])))
-            for name, fn in fns:
-                res, err = call(fn, arg.copy())
-                run.evaluations += 1
-                run.actions[name] = run.actions.get(name, 0) + len(cs)
-                key0 = "sph:%s:%s:%s" % (name, jkey(cs[0]["P"]), "batch" if tag != "unit" else "unit")
-                if err:
-                    V.add(key0, name + ".raised", dict(points=cs[0]["P"], shape=tag, error=err))
-                    continue
-                try:
-                    ctr, rad = res
-                    ctr = np.asarray(ctr, dtype=float)
-                    rad = np.asarray(rad, dtype=float)
-                    assert ctr.shape == shp + (n,) and rad.shape == shp
-                except Exception:
-                    V.add(key0, name + ".shape", dict(points=cs[0]["P"], shape=tag, want_centre=list(shp + (n,)), want_radius=list(shp)))
-                    continue
-                ctr = ctr.reshape((-1, n))
-                rad = rad.reshape((-1,))
-                with np.errstate(all="ignore"):
-                    sc = np.maximum(1.0, Rr[sl])
-                    c_ok = np.abs(ctr - C[sl]).max(axis=-1) <= 1e-8 * sc
-                    r_ok = np.abs(rad - Rr[sl]) <= 1e-8 * sc
-                    # the statement itself: the sphere contains all the points
-                    dist = np.linalg.norm(P[sl] - ctr[:, None, :], axis=-1)
-                    on_ok = np.abs(dist - rad[:, None]).max(axis=-1) <= 1e-8 * sc
-                for mask, clause in ((c_ok, name + ".centre"), (r_ok, name + ".radius"), (on_ok, name + ".contains_points")):
-                    for j in np.nonzero(~mask)[0][:2]:
-                        V.add("sph:%s:%s:%s" % (name, jkey(cs[j]["P"]), "batch" if tag != "unit" else "unit"), clause,
-                              dict(points=cs[j]["P"], shape=tag, want_centre=cs[j]["centre"], want_r2=cs[j]["r2"],
-                                   got_centre=ctr[j].tolist(), got_radius=float(rad[j])))
-                    if (~mask).any():
-                        break
-        c = cases[len(cases) // 2]
-        run.sample(dict(kind="sphere", points=c["P"], exact_centre=c["centre"], exact_r2=c["r2"]))
+        sims = [("as emitted", np.ones(B), np.zeros_like(T), "all")]
+        sims += [("scale %g" % f, np.full(B, f), T, "few") for f in table if f != 1.0]
+        sims += [("mixed scales", mixed, T, "all")]
+        for sim, cv, tv, how in sims:
+            P = cv[:, None, None] * (P0 + tv[:, None, :])
+            C = cv[:, None] * (C0 + tv)
+            Rr = np.abs(cv) * R0
+            size = np.abs(cv) * np.maximum(1.0, np.maximum(R0, np.abs(P0 + tv[:, None, :]).max(axis=(-1, -2))))
+            variants = []
+            for tag, grid in shapes_of(B):
+                if grid is None:
+                    variants.append((tag, slice(None), (B,)))
+                elif how == "all":
+                    variants.append((tag, slice(0, int(np.prod(grid))), grid))
+            for i in range(0, B, single_every * (1 if how == "all" else 5)):
+                variants.append(("unit", slice(i, i + 1), ()))
+            for tag, sl, shp in variants:
+                cs = cases[sl]
+                arg = P[sl].reshape(shp + (n + 1, n))
+                fns = [("sphere_through", lambda a: U.sphere_through(a))]
+                if n == 2:
+                    fns.append(("circle_through", lambda a: U.circle_through(a[..., 0, :], a[..., 1, :], a[..., 2, :])))
+                for name, fn in fns:
+                    res, err = call(fn, arg.copy())
+                    run.evaluations += 1
+                    run.actions[name] = run.actions.get(name, 0) + len(cs)
+                    kind = "batch" if tag != "unit" else "unit"
+                    key0 = "sph:%s:%s:%s:%s" % (name, jkey(cs[0]["P"]), sim, kind)
+                    if err:
+                        V.add(key0, name + ".raised", dict(points=cs[0]["P"], similarity=sim, shape=tag, error=err))
+                        continue
+                    try:
+                        ctr, rad = res
+                        ctr = np.asarray(ctr, dtype=float)
+                        rad = np.asarray(rad, dtype=float)
+                        assert ctr.shape == shp + (n,) and rad.shape == shp
+                    except Exception:
+                        V.add(key0, name + ".shape", dict(points=cs[0]["P"], similarity=sim, shape=tag,
+                                                          want_centre=list(shp + (n,)), want_radius=list(shp)))
+                        continue
+                    ctr = ctr.reshape((-1, n))
+                    rad = rad.reshape((-1,))
+                    with np.errstate(all="ignore"):
+                        tol = 1e-8 * size[sl]
+                        c_ok = np.abs(ctr - C[sl]).max(axis=-1) <= tol
+                        r_ok = np.abs(rad - Rr[sl]) <= tol
+                        # the statement itself: the sphere contains all the points
+                        dist = np.linalg.norm(P[sl] - ctr[:, None, :], axis=-1)
+                        on_ok = np.abs(dist - rad[:, None]).max(axis=-1) <= tol
+                    for mask, clause in ((c_ok, name + ".centre"), (r_ok, name + ".radius"), (on_ok, name + ".contains_points")):
+                        for j in np.nonzero(~mask)[0][:2]:
+                            f = float(cv[sl][j])
+                            V.add("sph:%s:%s:c=%g:%s" % (name, jkey(cs[j]["P"]), f, kind), clause,
+                                  dict(points=cs[j]["P"], similarity=sim, factor=f, shift=cs[j]["shift"], shape=tag,
+                                       exact_centre_unscaled=cs[j]["centre"], exact_r2_unscaled=cs[j]["r2"],
+                                       want_centre=C[sl][j].tolist(), want_radius=float(Rr[sl][j]),
+                                       got_centre=ctr[j].tolist(), got_radius=float(rad[j])))
+                        if (~mask).any():
+                            break
+        c = cases[B // 2]
+        run.sample(dict(kind="sphere", points=c["P"], exact_centre=c["centre"], exact_r2=c["r2"], shift=c["shift"],
+                        factors=c["scales"], factor_in_mixed_batch=c["scales"][c["si"] - 1]))
     run.traces += total
     return total
 
@@ -739,6 +784,9 @@ def run(run, replay=None):
         "kernel: integer matrices with entries in [-1, 1] or [-2, 2], all ranks including rank-deficient, tall and zero rows; "
         "a batch holds matrices of equal rank (the function's documented matching_rank mode)",
         "spheres: n = 2, 3 (4 thorough); arcs: angles on the grid pi/12 (and pi/24 thorough), ties excluded",
+        "scale covariance: spheres at factors 1e-6, 1e-3, 1e3, -1e-3 after an integer shift (no cancellation is introduced: the "
+        "shift is applied before the factor), rows and forms at positive factors 1e-3, 1e3; kernel factors stay far above the "
+        "function's documented singular-value tolerance 1e-8",
         "tolerance 1e-9 (1e-8 for kernels and spheres) times the squared size of the compared rows; SVD/eigh-dependent rows are bound by laws only",
     ]
     W = 3 if quick else 4
@@ -768,13 +816,13 @@ def run(run, replay=None):
     else:
         jobs = [
             forms_job("forms_n2", 2, 3, 2, rat=True, workers=W),
-            forms_job("forms_n3", 3, 1, 3, rat=True, workers=8),
+            forms_job("forms_n3", 3, 1, 3, rat=True, workers=8, scale_thm=False),     # RowScaleInvariant: see forms_n3_cong, sims
             forms_job("forms_n3_cong", 3, 1, 2, mincong=1, maxcong=1, formrng=1, workers=8),
             forms_job("forms_n3_walk", 3, 1, 0, maxcong=99, formrng=2, workers=W),
             forms_job("forms_n4_walk", 4, 1, 0, maxcong=2, formrng=1, workers=8),
             forms_job("forms_sym_n2", 2, 1, 2, formrng=3, workers=W, init="InitSym"),
             forms_job("forms_sym_n3", 3, 1, 1, formrng=1, workers=W, init="InitSym"),
-            forms_job("forms_sym_n3_r2", 3, 1, 0, formrng=2, workers=8, init="InitSym"),
+            forms_job("forms_sym_n3_r2", 3, 1, 0, formrng=2, workers=W, init="InitSym"),
             forms_job("forms_sym_n3_sim", 3, 1, 3, formrng=1, workers=W, simulate=400, depth=5, init="InitSym"),
             forms_job("forms_n4_sim", 4, 2, 4, workers=W, simulate=400, depth=8),
             forms_job("forms_n4_cong", 4, 1, 4, mincong=3, maxcong=3, formrng=2, workers=W, simulate=300, depth=10),
@@ -790,13 +838,13 @@ def run(run, replay=None):
             sphere_job("sphere_n2_box", 2, 3, False, workers=8),
             sphere_job("sphere_n2_shell", 2, 1, True, 25, 5, workers=W),
             sphere_job("sphere_n3_box", 3, 1, False, workers=W, simulate=500, depth=6),
-            sphere_job("sphere_n3_shell", 3, 1, True, 9, 3, workers=W, simulate=250, depth=6),
-            sphere_job("sphere_n4_shell", 4, 1, True, 4, 2, workers=W, simulate=80, depth=7),
+            sphere_job("sphere_n3_shell", 3, 1, True, 9, 3, workers=W, simulate=120, depth=6),
+            sphere_job("sphere_n4_shell", 4, 1, True, 4, 2, workers=W, simulate=40, depth=7),
             arcs_job("arcs_12", 12, workers=W),
             arcs_job("arcs_24", 24, workers=8),
         ]
-        single_every = 11
-        parallel = 4
+        single_every = 17
+        parallel = 5
     import time
     t0 = time.time()
     recs = run_jobs(run, jobs, parallel)
